@@ -2,8 +2,24 @@ module verifharness
 
 go 1.23.1
 
-require github.com/dapr/kit v0.0.0
+require (
+	github.com/dapr/kit v0.0.0
+	github.com/lestrrat-go/jwx/v2 v2.0.21
+	golang.org/x/crypto v0.24.0
+	k8s.io/utils v0.0.0-20230726121419-3b25d923346b
+)
 
-require github.com/tidwall/transform v0.0.0-20201103190739-32f242e2dbde // indirect
+require (
+	github.com/alphadose/haxmap v1.3.1 // indirect
+	github.com/lestrrat-go/blackmagic v1.0.2 // indirect
+	github.com/lestrrat-go/httpcc v1.0.1 // indirect
+	github.com/lestrrat-go/httprc v1.0.5 // indirect
+	github.com/lestrrat-go/iter v1.0.2 // indirect
+	github.com/lestrrat-go/option v1.0.1 // indirect
+	github.com/sirupsen/logrus v1.9.3 // indirect
+	github.com/tidwall/transform v0.0.0-20201103190739-32f242e2dbde // indirect
+	golang.org/x/exp v0.0.0-20231006140011-7918f672742d // indirect
+	golang.org/x/sys v0.21.0 // indirect
+)
 
 replace github.com/dapr/kit => /repo
